@@ -9,8 +9,12 @@ MCRows == { <<3, 3>> }
 MCWeights == {1}
 MCUBatches == {<< <<<<3, 3>>, 1>> >>}
 MCWBatches == {<< <<<<3, 3>>, 2>> >>}
-MCOps == {"FromArrays", "GetItem", "DropD"}
+MCOps == {"FromArrays", "GetItem", "GetCell", "DropD"}
 MCScaleArgs == {<<2, 1>>}
+IdxT(LL) == {ix \in [1..Len(LL) -> -3..2] : \A a \in 1..Len(LL) : NormIx(Len(LL[a]), ix[a]) \in 0..(Len(LL[a]) - 1)}
+CellOfIx(LL, ix) == [a \in 1..Len(LL) |-> NormIx(Len(LL[a]), ix[a]) + 1]
+MCCellArgs == UNION {{<<ix, [a \in 1..Len(LL) |-> Left(LL[a][CellOfIx(LL, ix)[a]])], [a \in 1..Len(LL) |-> Right(LL[a][CellOfIx(LL, ix)[a]])],
+                        CodeOf(CellOfIx(LL, ix), 4)>> : ix \in IdxT(LL)} : LL \in MCAxisLayouts}
 MCRetCands == {NoneRet}
 MCProjAxes == {<<1>>}
 MCMergeArgs == {<<2, 1>>}
